@@ -2,7 +2,7 @@
    fit_from_points, tilted, xy/xz/yz; polliwog/plane/_plane_functions.py: plane_normal_from_points,
    plane_equation_from_points, normal_and_offset_from_plane_equations; polliwog/tri/functions.py: surface_normals;
    the vg helpers they call (normalize, almost_unit_length, perpendicular, reject, angle, signed_angle, rotate).
-   Definitions only.  fit_from_points is modelled WITH fixes/C13-fit-real-normal.diff applied (np.linalg.eigh);
+   Definitions only.  fit_from_points is the code of /repo commit 9820109 (np.linalg.eigh);
    the eigen-solver itself is a section argument (LAPACK is not modelled), see `eig_contract` in proofs/P_plane_fit.v. *)
 From Coq Require Import ZArith List Bool Arith.
 From PW Require Import Num Vec Mat NpList Result.
@@ -113,9 +113,8 @@ Section PlaneCtor.
       if (length ps <=? 1)%nat then Raise LinAlgError
       else plane_ctor default_atol (centroid ps) (fit_normal (eigh (cov ps))).
   End Fit.
-  (* dtype of the fitted normal: eigh of a real symmetric matrix is real (np.linalg.eig at the pinned commit
-     returned complex128, which is what fixes/C13-fit-real-normal.diff repairs) *)
-  Definition fit_normal_is_real : bool := true.
+  (* dtype of the fitted normal (real float64 since 9820109) is not a real-arithmetic notion: it is part of the
+     observed plane in the correspondence check (o_real) and of the oracle *)
 
   (* ---- tilted ------------------------------------------------------------------------------------- *)
   (* vg.reject(v, from_v=look) = v - dot(v, normalize(look)) * normalize(look) *)
